@@ -145,6 +145,9 @@ func newGen(rng *rand.Rand) (*gen, []memberView) {
 	case "small":
 		for i := range powers {
 			powers[i] = int64(1 + rng.Intn(10))
+			if i > 0 && rng.Intn(6) == 0 {
+				powers[i] = 0 // a peer: member without voting power
+			}
 		}
 	case "skewed":
 		for i := range powers {
@@ -304,7 +307,7 @@ func otherMsg(msg []byte) []byte {
 }
 
 var sufficientShapes = []string{"all", "min", "min", "min+noise", "min+dup"}
-var insufficientShapes = []string{"under", "under", "under+dup", "under+dup", "under+dup", "under+zero", "under+foreign",
+var insufficientShapes = []string{"under", "under", "under+dup", "under+dup", "under+dup", "under+zero", "under+zero", "under+zero", "under+foreign",
 	"under+wrongmsg", "under+truncsig", "under+longsig", "under+trunckey", "under+longkey", "wrongmsg-all", "none", "random"}
 
 // entries builds the signature list of the given shape over msg.
